@@ -49,6 +49,12 @@ def kwStr : Kw → String
   | .bool => "bool" | .int => "int" | .float => "float" | .str => "str"
   | .mod => "mod" | .group => "group" | .imp => "import"
 
+def getSl (j : Json) : Except String Sl := do
+  match ← getList j with
+  | [Json.str "idx", n] => pure (.idx (← n.getNat?))
+  | [Json.str "rng", a, b] => pure (.rng (← getOptNat a) (← getOptNat b))
+  | _ => throw s!"bad slice {j}"
+
 def getNode (j : Json) : Except String Node := do
   pure { name := ← getStr (← field j "name"),
          indent := ← (← field j "indent").getNat?,
@@ -56,12 +62,12 @@ def getNode (j : Json) : Except String Node := do
          dims := ← (← getList (fieldD j "dims" |> fun x => if x == Json.null then Json.arr #[] else x)).mapM getPair,
          raw := ← optOf getVal (fieldD j "raw"),
          ref := ← optOf getStr (fieldD j "ref"),
-         slice := ← (← getList (fieldD j "slice" |> fun x => if x == Json.null then Json.arr #[] else x)).mapM getPair,
+         slice := ← (← getList (fieldD j "slice" |> fun x => if x == Json.null then Json.arr #[] else x)).mapM getSl,
          unitsRaw := ← optOf getStr (fieldD j "unit"),
          value := none,
          defined := (fieldD j "defined").getBool?.toOption.getD false,
          constant := false, condition := none, format := none, tags := [], options := [],
-         imported := false }
+         description := none, imported := false }
 
 def getItem (j : Json) : Except String Item := do
   match ← (← field j "t").getStr? with
@@ -75,6 +81,7 @@ def getItem (j : Json) : Except String Item := do
     | "format" => pure (.prop (.format (← getStr (← field j "v"))))
     | "tags" => pure (.prop (.tags (← (← getList (← field j "v")).mapM getStr)))
     | "option" => pure (.prop (.option (← getStr (← field j "v")) (← optOf getStr (fieldD j "unit"))))
+    | "description" => pure (.prop (.description (← getStr (← field j "v"))))
     | p => throw s!"bad prop {p}"
   | t => throw s!"bad item {t}"
 
@@ -89,8 +96,8 @@ def nodeJson (n : Node) : Json :=
   Json.mkObj [("name", jS n.name), ("kw", jstr (kwStr n.kw)), ("unit", optJ jS n.unitsRaw),
     ("value", optJ valJson n.value), ("constant", Json.bool n.constant),
     ("condition", optJ jS n.condition), ("format", optJ jS n.format),
-    ("tags", jarr jS n.tags), ("options", optsJson n.options), ("dims", jarr
-      (fun (d : Dim) => Json.arr #[optJ jnat d.1, optJ jnat d.2]) n.dims)]
+    ("tags", jarr jS n.tags), ("options", optsJson n.options), ("description", optJ jS n.description),
+    ("dims", jarr (fun (d : Dim) => Json.arr #[optJ jnat d.1, optJ jnat d.2]) n.dims)]
 
 def getTbl (j : Json) : Except String UnitTable := do
   (← getList j).mapM (fun e => do
@@ -112,12 +119,6 @@ def getSQuery (j : Json) : Except String SQuery := do
   | [Json.str "exact", p] => pure (.exact (← getPath p))
   | _ => throw s!"bad query {j}"
 
-def getSl (j : Json) : Except String Sl := do
-  match ← getList j with
-  | [Json.str "idx", n] => pure (.idx (← n.getNat?))
-  | [Json.str "rng", a, b] => pure (.rng (← getOptNat a) (← getOptNat b))
-  | _ => throw s!"bad slice {j}"
-
 def getSVal (j : Json) : Except String SVal := do
   if let .ok v := j.getObjVal? "lit" then pure (.lit (← getVal v))
   else
@@ -137,14 +138,15 @@ def getStmt (j : Json) : Except String SStmt := do
   | "format" => pure (.format path (← getStr (← field j "v")))
   | "tags" => pure (.tags path (← (← getList (← field j "v")).mapM getStr))
   | "option" => pure (.option path (← getStr (← field j "v")) (← optOf getStr (fieldD j "unit")))
+  | "description" => pure (.description path (← getStr (← field j "v")))
   | t => throw s!"bad stmt {t}"
 
 def snodeJson (n : SNode) : Json :=
   Json.mkObj [("name", jS (joinDot n.path)), ("kw", jstr (kwStr n.kw)), ("unit", optJ jS n.unit),
     ("value", valJson n.value), ("constant", Json.bool n.constant),
     ("condition", optJ jS n.condition), ("format", optJ jS n.format),
-    ("tags", jarr jS n.tags), ("options", optsJson n.options), ("dims", jarr
-      (fun (d : Dim) => Json.arr #[optJ jnat d.1, optJ jnat d.2]) n.dims)]
+    ("tags", jarr jS n.tags), ("options", optsJson n.options), ("description", optJ jS n.description),
+    ("dims", jarr (fun (d : Dim) => Json.arr #[optJ jnat d.1, optJ jnat d.2]) n.dims)]
 
 def envJson (e : Env) : Json :=
   Json.mkObj [("nodes", jarr nodeJson e.nodes),
@@ -217,7 +219,7 @@ def runSpec (tbl : UnitTable) (j : Json) : Except String Json := do
 def runSlice (j : Json) : Except String Json := do
   let v ← getVal (← field j "v")
   let sl ← (← getList (← field j "slices")).mapM getSl
-  pure (Json.mkObj [("model", optJ valJson (sliceValue (sl.map Sl.toPair) v)),
+  pure (Json.mkObj [("model", optJ valJson (sliceValue sl v)),
                     ("spec", optJ valJson (specSlice sl v))])
 
 def blankNode (nm : Str) : Node :=
@@ -236,6 +238,7 @@ def blankNode (nm : Str) : Node :=
     format := none
     tags := []
     options := []
+    description := none
     imported := false }
 
 def runQuery (j : Json) : Except String Json := do
